@@ -43,7 +43,7 @@ def Rng.pick {α} [Inhabited α] (r : Rng) (xs : List α) : α × Rng :=
 def givesCheck (b : Board) (m : Move) : Bool := isCurrentInCheck (make b m)
 
 def isSpecial (b : Board) (m : Move) : Bool :=
-  m.isAttack || m.isPromotion || m.f.castle || m.f.enPassant || givesCheck b m
+  m.isPromotion || m.f.castle || m.f.enPassant || givesCheck b m || (m.isAttack && m.f.pieceMoved != PAWN && m.f.source % 3 == 0)
 
 /-- choose a legal move; with probability 1/2 among the "special" ones (captures, promotions, castling,
 en passant, checks) when there are any -/
@@ -51,7 +51,7 @@ def chooseMove (b : Board) (r : Rng) : Option Move × Rng :=
   let legal := genLegal b
   if legal.isEmpty then (none, r) else
   let special := legal.filter (isSpecial b)
-  let (coin, r) := r.below 2
+  let (coin, r) := r.below 3
   if coin == 0 && !special.isEmpty then
     let (m, r) := r.pick special
     (some m, r)
@@ -192,56 +192,159 @@ def roots : List String := [
   "4k3/8/8/8/8/8/6B1/5K1r w - - 0 1",
   "7k/8/8/8/8/8/8/KQ6 w - - 49 80",
   "6k1/5ppp/8/8/8/8/8/R3K3 w Q - 0 1",
-  "k7/8/8/8/5q2/6Pp/7Q/K7 w - - 0 1"
+  "k7/8/8/8/5q2/6Pp/7Q/K7 w - - 0 1",
+  -- checkmates and stalemates (no legal move), several mating patterns, both colours
+  "rnb1kbnr/pppp1ppp/8/4p3/6Pq/5P2/PPPPP2P/RNBQKBNR w KQkq - 1 3",
+  "r1bqkb1r/pppp1Qpp/2n2n2/4p3/2B1P3/8/PPPP1PPP/RNB1K1NR b KQkq - 0 4",
+  "R5k1/5ppp/8/8/8/8/8/4K3 b - - 1 1",
+  "6k1/5ppp/8/8/8/8/8/r3K3 w - - 1 1",
+  "7k/6Q1/5K2/8/8/8/8/8 b - - 5 60",
+  "7k/5Q2/6K1/8/8/8/8/8 b - - 0 1",
+  "k7/2Q5/1K6/8/8/8/8/8 b - - 0 1",
+  "5k2/5P2/5K2/8/8/8/8/8 b - - 0 1",
+  "8/8/8/8/8/5k2/5p2/5K2 w - - 0 1",
+  "kr6/ppN5/8/8/8/8/8/6K1 b - - 0 1",
+  "6rk/5Npp/8/8/8/8/8/6K1 b - - 0 1",
+  "3rkr2/3p1p2/8/4N3/8/8/4Q3/4K3 w - - 0 1",
+  "r3k2r/ppp2Npp/1b5n/4p2b/2B1P2q/BQP2P2/P5PP/RN5K w kq - 1 0",
+  "8/8/8/8/8/6k1/6p1/6K1 w - - 0 70",
+  "K7/2k5/1q6/8/8/8/8/8 w - - 10 99",
+  "1R4k1/5ppp/8/8/8/8/8/6K1 b - - 0 1",
+  "5rk1/5ppp/8/8/8/8/1b6/K1n5 w - - 0 1",
+  "4k3/4P3/4K3/8/8/8/8/8 b - - 0 1",
+  "8/8/8/8/8/1k6/1p6/1K6 w - - 99 120",
+  "7k/7P/7K/8/8/8/8/8 b - - 0 1"
 ]
 
-/-- emit `n` positions: `pos <fen_>` lines; sources cycle through playouts from the roots, placements, skewed and
-flipped variants.  Only positions satisfying `wf` are emitted. -/
+/-- middlegame-rich roots: playouts from these stay complex for a while -/
+def richRoots : List String := [
+  "rnbqkbnr/pppppppp/8/8/8/8/PPPPPPPP/RNBQKBNR w KQkq - 0 1",
+  "rnbqkbnr/pppppppp/8/8/8/8/PPPPPPPP/RNBQKBNR w KQkq - 0 1",
+  "r3k2r/p1ppqpb1/bn2pnp1/3PN3/1p2P3/2N2Q1p/PPPBBPPP/R3K2R w KQkq - 0 1",
+  "r3k2r/Pppp1ppp/1b3nbN/nP6/BBP1P3/q4N2/Pp1P2PP/R2Q1RK1 w kq - 0 1",
+  "r2q1rk1/pP1p2pp/Q4n2/bbp1p3/Np6/1B3NBn/pPPP1PPP/R3K2R b KQ - 0 1",
+  "rnbq1k1r/pp1Pbppp/2p5/8/2B5/8/PPP1NnPP/RNBQK2R w KQ - 1 8",
+  "r4rk1/1pp1qppp/p1np1n2/2b1p1B1/2B1P1b1/P1NP1N2/1PP1QPPP/R4RK1 w - - 0 10",
+  "r1bqk2r/pppp1ppp/2n2n2/2b1p3/2B1P3/2N2N2/PPPP1PPP/R1BQK2R w KQkq - 6 5",
+  "r3k2r/pppq1ppp/2npbn2/2b1p3/2B1P3/2NPBN2/PPPQ1PPP/R3K2R b KQkq - 4 8",
+  "rnbqkb1r/pp2pppp/3p1n2/8/3NP3/2N5/PPP2PPP/R1BQKB1R b KQkq - 2 5",
+  "r1bq1rk1/pp2ppbp/2np1np1/8/3NP3/2N1BP2/PPPQ2PP/R3KB1R w KQ - 3 9",
+  "rnbqkbnr/ppp1p1pp/8/3pPp2/8/8/PPPP1PPP/RNBQKBNR w KQkq f6 0 3",
+  "rnbqkbnr/pp1ppppp/8/8/2pPP3/8/PPP2PPP/RNBQKBNR b KQkq d3 0 3",
+  "r3k2r/1P4P1/8/8/8/8/1p4p1/R3K2R w KQkq - 0 1",
+  "4k2r/6P1/8/8/8/8/1p6/R3K3 b Qk - 0 1",
+  "r3k2r/8/8/8/8/8/8/R3K2R w KQkq - 0 1"
+]
+
+/-- double pawn pushes after which an enemy pawn can capture en passant -/
+def epCreating (b : Board) : List Move :=
+  (genLegal b).filter fun m =>
+    m.f.nextEp != 0 && (genLegal (make b m)).any fun r => r.f.enPassant
+
+/-- emit `n` positions: `pos <fen_>` lines.  Sources: short playouts from middlegame-rich roots (most), long playouts
+(endgames), random few-piece placements with short playouts (mates, stalemates, promotions), positions with an
+en-passant capture available, the roots themselves and colour-flipped twins; a quarter gets skewed clocks.
+Only positions satisfying `wf` are emitted. -/
 def genPositions (seed n : Nat) : List String := Id.run do
   let mut r := Rng.ofSeed seed
   let mut out : Array String := #[]
-  let rootBoards := roots.filterMap fun s => match fromFenString s with | .ok b => some b | .error _ => none
+  let parse := fun (l : List String) => l.filterMap fun s => match fromFenString s with | .ok b => some b | .error _ => none
+  let rootBoards := parse roots
+  let richBoards := parse richRoots
+  let emit := fun (b : Board) (r : Rng) (out : Array String) =>
+    let (sk, r) := r.below 4
+    let (b', r) := if sk == 0 then skewClocks b r else (b, r)
+    let (fl, r) := r.below 6
+    let b'' := if fl == 0 then flipBoard b' else b'
+    (if wf b'' then out.push s!"pos {fenTok b''}" else out, r)
   let mut guard := 0
   while out.size < n && guard < 100 * n + 1000 do
     guard := guard + 1
-    let (kind, r1) := r.below 10
+    let (kind, r1) := r.below 21
     r := r1
-    if kind < 6 then
-      -- playout from a root
-      let (root, r1) := r.pick rootBoards
-      let (len, r2) := r1.below 120
-      let (long, r3) := r2.below 8
-      let len := if long == 0 then len + 180 else len
-      let (steps, final, r4) := playout len root r3 []
+    if kind < 10 then
+      -- short playout from a rich root: middlegames with castling rights, pins, en passant
+      let (root, r1) := r.pick richBoards
+      let (len, r2) := r1.below 70
+      let (steps, final, r3) := playout len root r2 []
+      r := r3
+      let (stride, r4) := r.below 6
       r := r4
-      let (stride, r5) := r.below 9
-      r := r5
       let mut i := 0
       for (b, _) in steps do
-        if i % (stride + 1) == 0 && out.size < n then
-          let (b', r6) := skewClocks b r
-          r := r6
-          if wf b' then out := out.push s!"pos {fenTok b'}"
+        if i % (stride + 2) == 0 && out.size < n then
+          let (o, r5) := emit b r out
+          out := o
+          r := r5
         i := i + 1
-      if out.size < n && wf final then out := out.push s!"pos {fenTok final}"
-    else if kind < 9 then
+      if out.size < n then
+        let (o, r5) := emit final r out
+        out := o
+        r := r5
+    else if kind < 12 then
+      -- long playout: endgames
+      let (root, r1) := r.pick rootBoards
+      let (len, r2) := r1.below 200
+      let (steps, final, r3) := playout (len + 60) root r2 []
+      r := r3
+      let mut i := 0
+      for (b, _) in steps do
+        if i % 23 == 22 && out.size < n then
+          let (o, r5) := emit b r out
+          out := o
+          r := r5
+        i := i + 1
+      if out.size < n then
+        let (o, r5) := emit final r out
+        out := o
+        r := r5
+    else if kind < 15 then
       let (b, r1) := randomPlacement r
       r := r1
       if wf b then
-        let (b', r2) := skewClocks b r
-        r := r2
-        let (fl, r3) := r.below 3
-        r := r3
-        let b'' := if fl == 0 then flipBoard b' else b'
-        if wf b'' then
-          -- a short playout from the placement reaches mates/stalemates/promotions quickly
-          let (len, r4) := r.below 12
-          let (steps, final, r5) := playout len b'' r4 []
-          r := r5
-          out := out.push s!"pos {fenTok b''}"
-          if out.size < n && wf final && !steps.isEmpty then out := out.push s!"pos {fenTok final}"
+        -- a short playout from the placement reaches mates / stalemates / promotions quickly
+        -- moves that end the game at once (mate or stalemate in one): emit the terminal position
+        match (genLegal b).find? (fun m => (genLegal (make b m)).isEmpty) with
+        | some m =>
+          if out.size < n then
+            let (o, r2) := emit (make b m) r out
+            out := o
+            r := r2
+        | none => pure ()
+        let (long, r3) := r.below 2
+        let (len, r4) := r3.below (if long == 0 then 60 else 10)
+        let (steps, final, r5) := playout len b r4 []
+        r := r5
+        let (o, r6) := emit b r out
+        out := o
+        r := r6
+        if out.size < n && !steps.isEmpty then
+          let (o, r7) := emit final r out
+          out := o
+          r := r7
+          -- the position before a terminal position (mate / stalemate in one)
+          if (genLegal final).isEmpty && out.size < n then
+            match steps.getLast? with
+            | some (prev, _) =>
+              let (o, r8) := emit prev r out
+              out := o
+              r := r8
+            | none => pure ()
+    else if kind < 19 then
+      -- positions in which an en-passant capture is available
+      let (root, r1) := r.pick richBoards
+      let (len, r2) := r1.below 30
+      let (_, p, r3) := playout len root r2 []
+      r := r3
+      let cands := epCreating p
+      if !cands.isEmpty then
+        let (m, r4) := r.pick cands
+        r := r4
+        let (o, r5) := emit (make p m) r out
+        out := o
+        r := r5
     else
-      let (root, r1) := r.pick rootBoards
+      let (root, r1) := r.pick (rootBoards ++ richBoards)
       r := r1
       if wf root then out := out.push s!"pos {fenTok root}"
       if out.size < n && wf (flipBoard root) then out := out.push s!"pos {fenTok (flipBoard root)}"
